@@ -102,7 +102,7 @@ fn sample_of(plan: &Plan, out: &RunOutput) -> serde_json::Value {
 }
 
 /// Derived reach probes, bumped into the worker's counters.
-fn bump_probes<C: Clone>(ctx: &mut WorkerCtx<C>, plan: &Plan, out: &RunOutput) {
+fn bump_probes<C: Clone + Serialize>(ctx: &mut WorkerCtx<C>, plan: &Plan, out: &RunOutput) {
     for (k, v) in &out.probes {
         ctx.counters.add(k, *v);
     }
@@ -321,6 +321,7 @@ impl Check for C01 {
     fn run_index(&self, seed: u64, index: u64, _tier: Tier, ctx: &mut WorkerCtx<Plan>, known: &KnownFindings) {
         let mut rng = Rng::new(mix(seed, "C01", index));
         let plan = fault_free_plan(&mut rng, &Workload::full(), 6, false, 3);
+        ctx.about_to_eval(&plan);
         let (ev, out) = eval_with(&plan, oracle::check_c01, nt_c01);
         bump_probes(ctx, &plan, &out);
         if ctx.want_sample() && index % 7 == 2 && out.ops.len() >= 3 {
@@ -408,7 +409,15 @@ impl Check for C04 {
     }
     fn run_index(&self, seed: u64, index: u64, _tier: Tier, ctx: &mut WorkerCtx<Plan>, known: &KnownFindings) {
         let mut rng = Rng::new(mix(seed, "C04", index));
-        let plan = gen_c04(&mut rng);
+        let mut plan = gen_c04(&mut rng);
+        // a quarter of the plans carry one transport fault: what was completely received before
+        // it must still be delivered
+        if rng.chance(1, 4) {
+            let dry = gen::dry_run(&plan);
+            plan.faults = vec![gen::gen_fault(&mut rng, &dry)];
+            ctx.counters.bump("plans_with_fault");
+        }
+        ctx.about_to_eval(&plan);
         let (ev, out) = eval_with(&plan, oracle::check_c04, nt_c04);
         bump_probes(ctx, &plan, &out);
         ctx.counters.add("changes_reported", oracle::written_changes(&out).len() as u64);
@@ -429,11 +438,17 @@ impl Check for C04 {
          every LF / before the final OK / bytewise with 0-3 ms between segments so that enqueues \
          fall between segments; half of the plans re-targeted to actual instants); oracle: the \
          names delivered by ConnectionEvents equal the concatenation of all 'changed:' values the \
-         simulated server wrote (prefix during the run, equality at quiescence); distinct = \
-         distinct interleaving signature; non-trivial = the server reported at least two changes".into()
+         simulated server wrote (prefix during the run, equality at quiescence); a quarter of the \
+         plans additionally carry one transport fault (close, cut, reset, I/O error, garbage) placed \
+         by a dry run, and then every change of an idle reply the client read completely before the \
+         fault must still be delivered; distinct = distinct interleaving signature; non-trivial = \
+         the server reported at least two changes".into()
     }
     fn probes(&self) -> Vec<&'static str> {
         SESSION_PROBES.to_vec()
+    }
+    fn fault_kinds(&self) -> Vec<&'static str> {
+        vec!["close_clean", "cut", "read_err", "write_err", "reset", "garbage"]
     }
     session_check_common!();
 }
@@ -478,6 +493,7 @@ impl Check for C05 {
         if rng.chance(1, 10) {
             plan.consumer = Consumer::DropAt(rng.below(300));
         }
+        ctx.about_to_eval(&plan);
         let (ev, out) = eval_with(&plan, oracle::check_c05, nt_c05);
         bump_probes(ctx, &plan, &out);
         ctx.counters.add("client_lines_judged", out.judge.lines.len() as u64);
@@ -526,6 +542,7 @@ pub fn sweep_bases() -> Vec<Plan> {
         binary,
         fail,
         delay_ms,
+        partial_fields: if fail.is_some() { 1 } else { 0 },
     };
     let scripts: Vec<(Vec<Vec<Op>>, Vec<ChangeEvent>, Vec<(u64, ReplyShape)>, bool)> = vec![
         (vec![vec![Op::Request { id: 1 }]], vec![], vec![(1, shape(0, 0, None, None, 0))], true),
@@ -640,6 +657,7 @@ pub fn sweep_bases() -> Vec<Plan> {
                     readpicture_unknown: false,
                     readpicture_error: None,
                     albumart_error: None,
+                    later_error: None,
                 }];
                 bases.push(p);
             }
@@ -678,6 +696,7 @@ impl C08 {
         for f in faults {
             let mut plan = base.clone();
             plan.faults = vec![f];
+            ctx.about_to_eval(&plan);
             let (ev, out) = eval_with(&plan, oracle::check_c08, nt_c08);
             bump_probes(ctx, &plan, &out);
             ctx.counters.bump("sweep_runs");
@@ -747,6 +766,7 @@ impl Check for C08 {
         }
         let mut rng = Rng::new(mix(seed, "C08", index));
         let plan = gen_c08(&mut rng);
+        ctx.about_to_eval(&plan);
         let (ev, out) = eval_with(&plan, oracle::check_c08, nt_c08);
         bump_probes(ctx, &plan, &out);
         if ctx.want_sample() && index % 7 == 2 && !out.faults_fired.is_empty() {
@@ -854,9 +874,10 @@ impl Check for C17 {
     fn run_index(&self, seed: u64, index: u64, _tier: Tier, ctx: &mut WorkerCtx<Plan>, known: &KnownFindings) {
         let mut rng = Rng::new(mix(seed, "C17", index));
         let plan = gen_c17(&mut rng);
+        ctx.about_to_eval(&plan);
         let (ev, out) = eval_with(&plan, oracle::check_c17, nt_c17);
         for pic in &plan.pictures {
-            match oracle::expect_art(pic) {
+            match oracle::expect_art(pic, plan.binary_limit) {
                 oracle::ArtExpect::Some(b, _) => {
                     ctx.counters.bump("art.some");
                     if b.len() > plan.binary_limit {
@@ -1003,6 +1024,7 @@ impl Check for C18 {
             wire_checks::run_greeting_index(&mut rng, ctx, known, C18Case::Greeting);
         } else {
             let plan = gen_c18b(&mut rng);
+            ctx.about_to_eval(&C18Case::Password(plan.clone()));
             let (ev, out) = eval_with(&plan, oracle::check_c18b, nt_true);
             match &plan.password {
                 None => ctx.counters.bump("password.none"),
